@@ -235,6 +235,12 @@ theorem C13_validate_unspents_sound (db : Bytes → Option (List Out)) (ins : Li
                   obtain ⟨outs', o, h1, h2, h3⟩ := ih us.tail h k i (by simpa using hk) hnz
                   exact ⟨outs', o, h1, h2, by cases us <;> simp_all⟩
 
+/-- C13.pairing: input `i` spends exactly the outpoint of spendable `i`, and `unspents[i]` is spendable `i` -/
+theorem C13_pairing (sp : List Spendable) (i : Nat) (s : Spendable) (h : sp[i]? = some s) :
+    (createTxPairing sp).1[i]? = some ⟨s.txHash, s.txOutIndex⟩ ∧ (createTxPairing sp).2[i]? = some s ∧
+    (createTxPairing sp).1.length = sp.length := by
+  simp [createTxPairing, h, Spendable.txIn]
+
 /-! ## conversions -/
 
 theorem numDigits_le {n k : Nat} (h : n < 10 ^ k) (hk : 0 < k) : numDigits n ≤ k := by
